@@ -32,15 +32,26 @@ def simp_atom(kind, args):
     return Poly.atom(('polyatom', kind, tuple(args)))
 
 class Dom:
-    def __init__(self, p=None, use=('I2', 'I4', 'I7', 'path')):
+    def __init__(self, p=None, use=('I2', 'I4', 'I7', 'path', 'uns')):
         self.sub = []          # ordered list of (atom, Poly-term-builder) eliminations: atom -> semantic term
         self.use = use
         self.cache = {}
         self.solved = []       # (atom, Poly) from path equalities
         self.notes = []
         self.inv_sub = {}
-        if p is not None and 'path' in use:
-            self.add_path_equalities(p)
+        self.p = p
+        self._final = False    # path equalities are solved lazily, after the invariant eliminations have been declared
+
+    def finalize(self):
+        if self._final: return
+        self._final = True
+        self.cache = {}
+        if self.p is not None and 'path' in self.use:
+            self.add_path_equalities(self.p)
+        if self.p is not None and 'uns' in self.use:
+            # L-uns: amounts are unsigned, so not (0 < x) implies x == 0
+            for f, _, _ in self.p.facts:
+                if f[0] == 'val' and f[2] is False and f[1][0] == 'lt' and f[1][1] == I(0): self.add_equality(f[1][2], I(0))
 
     # --- invariant eliminations for the records seen on this path
     def assume_bid(self, BID, has_fee=None):
@@ -54,6 +65,7 @@ class Dom:
             self.inv_sub[aF] = SUB(Ft, ROUND0(MUL(Ft, DIV(SUB(Q, aQ), Q))))
             self.notes.append('I7 on %s' % K(BID))
         self.cache = {}
+        if self._final: self._final = False; self.solved = []
 
     def assume_ready_ask(self, ASK):
         if 'I2' in self.use:
@@ -61,9 +73,11 @@ class Dom:
             self.inv_sub[cb] = F(ASK, 'size')
             self.notes.append('I2 on %s' % K(ASK))
         self.cache = {}
+        if self._final: self._final = False; self.solved = []
 
     # --- polynomial with substitution
     def poly(self, t, depth=0):
+        if not self._final: self.finalize()
         key = t
         r = self.cache.get(key)
         if r is not None: return r
@@ -107,6 +121,8 @@ class Dom:
                 self.add_equality(f[1][1], f[1][2])
 
     def add_equality(self, a, b):
+        if not self._final:
+            self.finalize()
         d = self.poly(a) - self.poly(b)
         if d.is_zero() or d.is_const(): return
         # choose an atom occurring only in one linear monomial with coefficient +-1
